@@ -69,10 +69,13 @@ type chunkReader struct {
 	midAt       int
 	midDone     bool
 	pos         int
+	emptyAt     int // >= 0: the Read that starts at this offset returns (0, nil) once before it delivers
+	emptyDone   bool
 }
 
 // readerOptions parses the optional last field of a case: "-" | "e" | "p<ms>" | "m<ms>@<offset>", comma separated.
 func readerOptions(r *chunkReader, s string) {
+	r.emptyAt = -1
 	for _, o := range strings.Split(s, ",") {
 		switch {
 		case o == "e":
@@ -80,6 +83,9 @@ func readerOptions(r *chunkReader, s string) {
 		case strings.HasPrefix(o, "p"):
 			ms, _ := strconv.Atoi(o[1:])
 			r.pause = time.Duration(ms) * time.Millisecond
+		case strings.HasPrefix(o, "z"):
+			r.emptyAt, _ = strconv.Atoi(o[1:])
+			r.emptyDone = false
 		case strings.HasPrefix(o, "m") && strings.Contains(o, "@"):
 			parts := strings.SplitN(o[1:], "@", 2)
 			ms, _ := strconv.Atoi(parts[0])
@@ -96,6 +102,10 @@ func (r *chunkReader) Read(p []byte) (int, error) {
 			time.Sleep(r.pause)
 		}
 		return 0, io.EOF
+	}
+	if r.emptyAt >= 0 && !r.emptyDone && r.pos >= r.emptyAt {
+		r.emptyDone = true
+		return 0, nil
 	}
 	if r.midPause > 0 && !r.midDone && r.pos >= r.midAt {
 		r.midDone = true
